@@ -294,6 +294,15 @@ impl ReadCursor {
         let mut current_group = self.readers.load(CONSUME);
         loop {
             unsafe {
+                if (*current_group).readers.len() == 1 {
+                    // The last stream is going away. Its (now frozen) position stays
+                    // published: a sender that is already past the no-reader check must
+                    // still find the queue full at the capacity bound instead of finding
+                    // no constraint at all and overwriting values nobody consumed.
+                    self.last_pos.set(reader.load_count(Ordering::Relaxed));
+                    alloc::deallocate(reader.meta as *mut ReaderMeta, 1);
+                    return true;
+                }
                 let new_group = (*current_group).remove_reader(reader.pos);
                 vpoint!(RR_BEFORE_CAS);
                 match self.readers.compare_exchange(
